@@ -239,16 +239,40 @@ Proof.
     inversion H; subst. split; [reflexivity|]. split; [|discriminate]. intros _. exists (b0 :: bs'). split; [discriminate|split; reflexivity].
 Qed.
 
+(* a batch fetch that loads has items *)
+Lemma prepare_batch_items : forall f d items d' rq b, prepare f d items = PLoad d' rq b -> f_kind f = FBatch -> items <> [].
+Proof.
+  intros f d items d' rq b H K E. subst items. unfold prepare in H. rewrite K in H. cbn in H. discriminate.
+Qed.
+
+(* the selected data path of an entity / batch entity fetch holds null, a value of the wrong kind or
+   nothing (with or without errors, 200 or 500): never "no entity found" -- an error (or the subgraph's
+   own errors), nothing merged, the fetch recorded as failed *)
+Lemma shape_outcome : forall f sh we s5 r items batch s,
+  f_datapath f = datapath_of (f_kind f) ->
+  (f_kind f = FEntity \/ (f_kind f = FBatch /\ items <> [] /\ batch <> None)) ->
+  ls_errors (merge_result f (apply_fault (FtShape sh we s5) r) items batch s) <> [] /\
+  ls_data (merge_result f (apply_fault (FtShape sh we s5) r) items batch s) = ls_data s /\
+  In (f_id f) (ls_errored (merge_result f (apply_fault (FtShape sh we s5) r) items batch s)).
+Proof.
+  intros f sh we s5 r items batch s Hd Hk.
+  unfold merge_result, apply_fault, mk_response; cbn [rs_err rs_body rs_status]. rewrite Hd.
+  destruct Hk as [K|(K & Hi & Hb)]; rewrite K.
+  - destruct sh, we, s5; cbn; (split; [apply app_one_nonempty|split; [reflexivity|auto]]).
+  - destruct items as [|l [|l2 rest]]; [congruence| |]; (destruct batch as [bs|]; [|congruence]);
+      destruct sh, we, s5; cbn; (split; [apply app_one_nonempty|split; [reflexivity|auto]]).
+Qed.
+
 (* every loud fault on a loaded fetch: at least one error, nothing merged *)
-Lemma loud_outcome : forall answer root_answer f k d0 items0 d rq batch items s,
+Lemma loud_outcome : forall answer root_answer f k d0 d rq batch items s,
   (forall id, exists m, fst (root_answer id) = JObj m) ->
   f_datapath f = datapath_of (f_kind f) -> loud (f_kind f) k = true ->
-  prepare f d0 items0 = PLoad d rq batch ->
+  prepare f d0 items = PLoad d rq batch ->
   let res := apply_fault k (clean_response answer root_answer rq match f_kind f with FSingle => true | _ => false end) in
   ls_errors (merge_result f res items batch s) <> [] /\ ls_data (merge_result f res items batch s) = ls_data s /\
   In (f_id f) (ls_errored (merge_result f res items batch s)).
 Proof.
-  intros answer root_answer f k d0 items0 d rq batch items s Hrobj Hd Hloud HP. cbv zeta.
+  intros answer root_answer f k d0 d rq batch items s Hrobj Hd Hloud HP. cbv zeta.
   destruct (prepare_request _ _ _ _ _ _ HP) as (Hrq & Hb & He).
   destruct (loud_body k) eqn:LB; [apply loud_body_error; assumption|].
   destruct k; try discriminate; simpl in Hloud.
@@ -275,6 +299,12 @@ Proof.
       eapply nan_outcome; reflexivity.
     + unfold clean_response. eapply nan_outcome; reflexivity.
     + unfold clean_response. eapply nan_outcome; reflexivity.
+  - (* the data path holds null / a wrong kind / nothing *)
+    destruct (f_kind f) eqn:K; [discriminate| |].
+    + apply shape_outcome; [rewrite Hd, K; reflexivity|left; exact K].
+    + apply shape_outcome; [rewrite Hd, K; reflexivity|right]. split; [exact K|]. split.
+      * eapply prepare_batch_items; eassumption.
+      * destruct (Hb eq_refl) as (bs & _ & _ & ->). discriminate.
 Qed.
 
 Section Dichotomy.
@@ -308,7 +338,7 @@ Section Dichotomy.
     unfold eF, e0, faulty_exchange, no_faults. rewrite Hrq, Hk.
     destruct (F (f_id f)) as [k|] eqn:EF.
     - right. cbn [fst]. specialize (Hloud _ _ EF). rewrite Hk in Hloud.
-      apply (loud_outcome answer root_answer f k _ _ _ _ _ _ _ Hrobj Hd Hloud P).
+      apply (loud_outcome answer root_answer f k _ _ _ _ _ _ Hrobj Hd Hloud P).
     - left. cbn [fst]. split; [reflexivity|].
       intros rq' Hin. rewrite merge_result_reqs in Hin.
       assert (Hin' : In rq' (ls_reqs s ++ [rq])).
